@@ -61,3 +61,115 @@ Proof.
   intro V. split; [apply repeat_valid; assumption|].
   unfold op_repeat, len. rewrite length_repeat_bytes. lia.
 Qed.
+
+(* ---------- trim with a pattern ---------- *)
+
+Lemma repeat_snoc p : forall n, repeat_bytes p (S n) = repeat_bytes p n ++ p.
+Proof. induction n; simpl in *; [rewrite app_nil_r; reflexivity|]. rewrite IHn at 1. rewrite app_assoc. reflexivity. Qed.
+
+Lemma rev_repeat p : forall n, rev (repeat_bytes (rev p) n) = repeat_bytes p n.
+Proof.
+  induction n; [reflexivity|]. simpl repeat_bytes at 1. rewrite rev_app_distr, rev_involutive, IHn.
+  symmetry. apply repeat_snoc.
+Qed.
+
+Lemma trim_start_fuel_decomp p : forall fuel s, exists n, s = repeat_bytes p n ++ trim_start_fuel fuel p s.
+Proof.
+  induction fuel as [|f IH]; intro s; simpl; [exists 0%nat; reflexivity|].
+  destruct (is_prefix p s) eqn:E; [|exists 0%nat; reflexivity].
+  destruct (IH (drop (len p) s)) as [n Hn]. exists (S n). simpl.
+  rewrite (is_prefix_app _ _ E) at 1. rewrite <- app_assoc. f_equal. exact Hn.
+Qed.
+
+(* what is stripped at the front is a whole number of copies of the pattern *)
+Lemma trim_start_decomp_lemma p s : exists n, s = repeat_bytes p n ++ trim_start_matches p s.
+Proof. unfold trim_start_matches. destruct p; [exists 0%nat; reflexivity|]. apply trim_start_fuel_decomp. Qed.
+
+Lemma trim_end_decomp_lemma p s : exists n, s = trim_end_matches p s ++ repeat_bytes p n.
+Proof.
+  unfold trim_end_matches. destruct (trim_start_decomp_lemma (rev p) (rev s)) as [n Hn]. exists n.
+  transitivity (rev (rev s)); [symmetry; apply rev_involutive|].
+  rewrite Hn at 1. rewrite rev_app_distr, rev_repeat. reflexivity.
+Qed.
+
+Lemma trim_start_fuel_S f p s :
+  trim_start_fuel (S f) p s = if is_prefix p s then trim_start_fuel f p (drop (len p) s) else s.
+Proof. reflexivity. Qed.
+
+Lemma trim_start_fuel_stops x p : forall fuel s, (length s <= fuel)%nat ->
+  is_prefix (x :: p) (trim_start_fuel fuel (x :: p) s) = false.
+Proof.
+  induction fuel as [|f IH]; intros s L.
+  - destruct s; [reflexivity | simpl in L; lia].
+  - rewrite trim_start_fuel_S. destruct (is_prefix (x :: p) s) eqn:E; [|exact E].
+    apply IH. pose proof (len_drop (len (x :: p)) s) as LD.
+    assert (len s <> 0) by (destruct s; [discriminate | unfold len; simpl; lia]).
+    unfold len in *. simpl in *. lia.
+Qed.
+
+(* the result does not start with the pattern any more; hence trim_start is idempotent *)
+Lemma trim_start_stops p s : p <> [] -> is_prefix p (trim_start_matches p s) = false.
+Proof. intro H. destruct p as [|x p]; [contradiction|]. apply trim_start_fuel_stops. lia. Qed.
+
+Lemma trim_start_idem_lemma p s : trim_start_matches p (trim_start_matches p s) = trim_start_matches p s.
+Proof.
+  destruct p as [|x p]; [reflexivity|].
+  pose proof (trim_start_stops (x :: p) s ltac:(discriminate)) as H.
+  set (t := trim_start_matches (x :: p) s) in *. unfold trim_start_matches.
+  destruct (length t); [reflexivity|]. rewrite trim_start_fuel_S, H. reflexivity.
+Qed.
+
+Lemma trim_end_idem_lemma p s : trim_end_matches p (trim_end_matches p s) = trim_end_matches p s.
+Proof. unfold trim_end_matches. rewrite rev_involutive, trim_start_idem_lemma. reflexivity. Qed.
+
+Section Trim.
+  Variable k : kstring.
+  Variable s p : bytes.
+  Hypothesis W : ks_wf k.
+  Hypothesis A : ks_as_str k = Ok s.
+  Hypothesis Vp : valid_utf8 p.
+
+  (* core.string trim(pattern): never panics, and the result is exactly
+     trim_end_matches p (trim_start_matches p s) -- a contiguous slice of s between two character
+     boundaries, with whole copies of the pattern removed on both sides *)
+  Lemma trim_lemma :
+    exists k' n m, op_trim k p = VStr k' /\ ks_wf k' /\
+      ks_as_str k' = Ok (trim_end_matches p (trim_start_matches p s)) /\
+      s = repeat_bytes p n ++ trim_end_matches p (trim_start_matches p s) ++ repeat_bytes p m.
+  Proof.
+    assert (V : valid_utf8 s) by (destruct (ks_as_str_wf k W) as [r' [Hr Hv]]; congruence).
+    set (ts := trim_start_matches p s). set (te := trim_end_matches p ts).
+    destruct (trim_start_decomp_lemma p s) as [n Hn]. fold ts in Hn.
+    destruct (trim_end_decomp_lemma p ts) as [m Hm]. fold te in Hm.
+    assert (Ls : len s = len (repeat_bytes p n) + len ts) by (rewrite Hn at 1; apply len_app).
+    assert (Lt : len ts = len te + len (repeat_bytes p m)) by (rewrite Hm at 1; apply len_app).
+    assert (Vts : valid_utf8 ts).
+    { apply (valid_app_inv_l (repeat_bytes p n)); [apply repeat_valid; assumption | rewrite <- Hn; exact V]. }
+    assert (D : drop (len (repeat_bytes p n)) s = ts) by (rewrite Hn at 1; apply drop_app_len).
+    assert (B1 : is_char_boundary s (len (repeat_bytes p n)) = true) by (apply seam_is_boundary; [lia | rewrite D; exact Vts]).
+    assert (B2t : is_char_boundary ts (len te) = true).
+    { destruct m as [|m'].
+      - simpl in Hm. rewrite app_nil_r in Hm. rewrite <- Hm. apply icb_len.
+      - destruct p as [|x p'] eqn:Ep.
+        + replace (repeat_bytes [] (S m')) with (@nil N) in * by (clear; induction m'; simpl in *; auto).
+          rewrite app_nil_r in Hm. rewrite <- Hm. apply icb_len.
+        + rewrite <- Ep in *. destruct (valid_head_noncont p Vp ltac:(rewrite Ep; discriminate)) as [b [pt [Eb Hb]]].
+          apply (noncont_boundary ts (len te) b); [|assumption]. eapply drop_cons_nth.
+          rewrite Hm at 1. rewrite drop_app_len. simpl. rewrite Eb. reflexivity. }
+    assert (B2 : is_char_boundary s (len (repeat_bytes p n) + len te) = true).
+    { apply icb_drop_inv; [lia | assumption | rewrite D; exact B2t]. }
+    unfold op_trim. rewrite A. simpl. fold ts. fold te.
+    replace (len s - len ts) with (len (repeat_bytes p n)) by lia.
+    destruct (ks_with_bounds_exact k s (len (repeat_bytes p n)) (len (repeat_bytes p n) + len te) W A)
+      as [k' [Wb [Wk Ak]]]; auto; try lia.
+    unfold of_unwrap. rewrite Wb. simpl. exists k', n, m. split; [reflexivity|]. split; [assumption|]. split.
+    - rewrite Ak. f_equal. rewrite slice_from, D. rewrite Hm at 1. apply take_app_len.
+    - rewrite Hn at 1. f_equal. exact Hm.
+  Qed.
+End Trim.
+
+Lemma trim_overlap_example :
+  trim_end_matches [97; 97] (trim_start_matches [97; 97] [97; 97; 97]) = [97] /\
+  trim_end_matches [97; 98; 97] (trim_start_matches [97; 98; 97] [97; 98; 97; 98; 97]) = [98; 97] /\
+  op_replace [97; 97; 97] [97; 97] [120] = [120; 97] /\ op_replace [97; 195; 169] [] [45] = [45; 97; 45; 195; 169; 45].
+Proof. repeat split. Qed.
